@@ -190,12 +190,13 @@ type brun struct {
 	script []behaviour
 	linger time.Duration
 
-	mu       sync.Mutex
-	cur      []string    // observations of the event being processed
-	payloads map[any]int // response object -> payload (responses are matched by pointer identity)
-	nexec    int
-	attempt  int        // attempts already made at request number nexec
-	open     *wrapBatch // batch that has calls and has been neither completed nor failed
+	mu        sync.Mutex
+	cur       []string    // observations of the event being processed
+	payloads  map[any]int // response object -> payload (responses are matched by pointer identity)
+	nexec     int
+	attempt   int        // attempts already made at request number nexec
+	zeroRange int        // id of the delete-range of this case that has no key material
+	open      *wrapBatch // batch that has calls and has been neither completed nor failed
 
 	phase     atomic.Int32
 	sizeSeen  atomic.Bool
@@ -314,9 +315,7 @@ func (h *brun) execWrite(_ context.Context, req *proto.WriteRequest) (*proto.Wri
 	n, a, bh, partial := h.next()
 	if a == 0 {
 		h.logObs(fmt.Sprintf("S%d:P%s:D%s:R%s:G-", n,
-			idsOf(req.Puts, func(p *proto.PutRequest) string { return p.Key }),
-			idsOf(req.Deletes, func(p *proto.DeleteRequest) string { return p.Key }),
-			idsOf(req.DeleteRanges, func(p *proto.DeleteRangeRequest) string { return p.StartInclusive })))
+			idsWith(h, req.Puts, idOfPut), idsWith(h, req.Deletes, idOfDelete), idsWith(h, req.DeleteRanges, idOfRange)))
 	}
 	if partial >= 0 {
 		return nil, retriableErr(n + a)
@@ -329,7 +328,7 @@ func (h *brun) execWrite(_ context.Context, req *proto.WriteRequest) (*proto.Wri
 		r := &proto.PutResponse{Status: proto.Status_OK, Version: &proto.Version{}}
 		p := 0
 		if i < len(req.Puts) {
-			p = payloadOf(n, a, idOf(req.Puts[i].Key))
+			p = payloadOf(n, a, idOfPut(h, req.Puts[i]))
 		}
 		h.reg(r, p)
 		resp.Puts = append(resp.Puts, r)
@@ -338,7 +337,7 @@ func (h *brun) execWrite(_ context.Context, req *proto.WriteRequest) (*proto.Wri
 		r := &proto.DeleteResponse{Status: proto.Status_OK}
 		p := 0
 		if i < len(req.Deletes) {
-			p = payloadOf(n, a, idOf(req.Deletes[i].Key))
+			p = payloadOf(n, a, idOfDelete(h, req.Deletes[i]))
 		}
 		h.reg(r, p)
 		resp.Deletes = append(resp.Deletes, r)
@@ -347,7 +346,7 @@ func (h *brun) execWrite(_ context.Context, req *proto.WriteRequest) (*proto.Wri
 		r := &proto.DeleteRangeResponse{Status: proto.Status_OK}
 		p := 0
 		if i < len(req.DeleteRanges) {
-			p = payloadOf(n, a, idOf(req.DeleteRanges[i].StartInclusive))
+			p = payloadOf(n, a, idOfRange(h, req.DeleteRanges[i]))
 		}
 		h.reg(r, p)
 		resp.DeleteRanges = append(resp.DeleteRanges, r)
@@ -374,7 +373,7 @@ func (s *fakeReadStream) Recv() (*proto.ReadResponse, error) {
 func (h *brun) execRead(_ context.Context, req *proto.ReadRequest) (proto.OxiaClient_ReadClient, error) {
 	n, a, bh, partial := h.next()
 	if a == 0 {
-		h.logObs(fmt.Sprintf("S%d:P-:D-:R-:G%s", n, idsOf(req.Gets, func(p *proto.GetRequest) string { return p.Key })))
+		h.logObs(fmt.Sprintf("S%d:P-:D-:R-:G%s", n, idsWith(h, req.Gets, idOfGet)))
 	}
 	if partial == 0 && (n+a)%2 == 0 {
 		// nothing delivered: the stream cannot even be opened
@@ -395,7 +394,7 @@ func (h *brun) execRead(_ context.Context, req *proto.ReadRequest) (proto.OxiaCl
 		r := &proto.GetResponse{Status: proto.Status_OK, Version: &proto.Version{}}
 		p := 0
 		if i < len(req.Gets) {
-			p = payloadOf(n, a, idOf(req.Gets[i].Key))
+			p = payloadOf(n, a, idOfGet(h, req.Gets[i]))
 		}
 		h.reg(r, p)
 		all = append(all, r)
@@ -516,8 +515,73 @@ func (w *wrapBatch) Fail(err error) {
 	w.real.Fail(err)
 }
 
+// Calls of size zero have no key material to carry their id: a put / delete carries it in ExpectedVersionId (passed
+// through by ToProto), a get (marked by size 1 in the case line; the model ignores the size of a get) in
+// SecondaryIndexName, and a case has at most one delete-range("", ""), known to the run as zeroRange.
+func idOfPut(h *brun, p *proto.PutRequest) int {
+	if p.Key == "" && p.ExpectedVersionId != nil {
+		return int(*p.ExpectedVersionId)
+	}
+	return idOf(p.Key)
+}
+
+func idOfDelete(h *brun, p *proto.DeleteRequest) int {
+	if p.Key == "" && p.ExpectedVersionId != nil {
+		return int(*p.ExpectedVersionId)
+	}
+	return idOf(p.Key)
+}
+
+func idOfRange(h *brun, p *proto.DeleteRangeRequest) int {
+	if p.StartInclusive == "" && p.EndExclusive == "" {
+		return h.zeroRange
+	}
+	return idOf(p.StartInclusive)
+}
+
+func idOfGet(h *brun, p *proto.GetRequest) int {
+	if p.Key == "" && p.SecondaryIndexName != nil {
+		return idOf(*p.SecondaryIndexName)
+	}
+	return idOf(p.Key)
+}
+
+func idsWith[T any](h *brun, l []T, id func(*brun, T) int) string {
+	if len(l) == 0 {
+		return "-"
+	}
+	s := make([]string, len(l))
+	for i, x := range l {
+		s[i] = strconv.Itoa(id(h, x))
+	}
+	return strings.Join(s, ".")
+}
+
 func (h *brun) makeCall(c bcall) any {
 	id := c.id
+	if c.size == 0 && c.kind != 'g' {
+		id64 := int64(id)
+		switch c.kind {
+		case 'p':
+			return oxia.VerifPutCall{Key: "", Value: nil, ExpectedVersionId: &id64, Callback: func(r *proto.PutResponse, err error) {
+				h.done(id, r, r == nil, err)
+			}}
+		case 'd':
+			return oxia.VerifDeleteCall{Key: "", ExpectedVersionId: &id64, Callback: func(r *proto.DeleteResponse, err error) {
+				h.done(id, r, r == nil, err)
+			}}
+		default:
+			h.zeroRange = id
+			return oxia.VerifDeleteRangeCall{MinKeyInclusive: "", MaxKeyExclusive: "",
+				Callback: func(r *proto.DeleteRangeResponse, err error) { h.done(id, r, r == nil, err) }}
+		}
+	}
+	if c.kind == 'g' && c.size == 1 {
+		carrier := keyOf(id)
+		return oxia.VerifGetCall{Key: "", IncludeValue: true, SecondaryIndexName: &carrier, Callback: func(r *proto.GetResponse, err error) {
+			h.done(id, r, r == nil, err)
+		}}
+	}
 	key := keyOf(id)
 	pad := c.size - len(key)
 	if pad < 0 {
@@ -765,7 +829,7 @@ func checkBatchSpec(o *hxOut, cfg bcfg, script []behaviour, events []bevent, res
 			return
 		}
 		if len(rs) > 1 {
-			o.Violation("batch:callback-fired-twice", fmt.Sprintf("%s => %s (call %d)", line, result, id))
+			o.Violation("batch:call-completed-twice", fmt.Sprintf("%s => %s (call %d)", line, result, id))
 			return
 		}
 		r := rs[0]
@@ -803,7 +867,7 @@ func checkBatchSpec(o *hxOut, cfg bcfg, script []behaviour, events []bevent, res
 	if closes == 1 || !cfg.lingerPos {
 		for id := range submitted {
 			if len(done[id]) == 0 {
-				o.Violation("batch:callback-never-fired", fmt.Sprintf("%s => %s (call %d)", line, result, id))
+				o.Violation("batch:call-never-completed", fmt.Sprintf("%s => %s (call %d)", line, result, id))
 				return
 			}
 		}
